@@ -1,7 +1,8 @@
 (** C08 - derives and attributes reach exactly the right types (statements only). *)
 From Coq Require Import List NArith String Bool.
 From V Require Import Base.Strings Base.Result Model.Registry Model.Settings Model.Subst
-  Model.TypePath Model.Derives Model.Generate Model.Emit Model.Equal Proofs.GenProofs Proofs.SortDedup.
+  Model.TypePath Model.Derives Model.Generate Model.Emit Model.Equal Model.Reach
+  Proofs.GenProofs Proofs.SortDedup Proofs.CollectProofs Proofs.DerivesProofs Proofs.DerivesExamples.
 Import ListNotations.
 
 (** emitted derive lists are sorted and duplicate free, keys are exactly the registered ones *)
@@ -17,3 +18,211 @@ Theorem C08_upcast_derives :
     else dr_default (s_dreg s).
 Proof. exact upcast_derives. Qed.
 Print Assumptions C08_upcast_derives.
+
+(** * Universal theorems (all registries, all settings)
+
+    Vocabulary (Model/Reach.v): [edge r a b] = "[b] is a child of the type at position [a]"
+    ([collect_children]: non-skipped type parameter | struct field | variant field |
+    sequence / array element | tuple element | compact inner; NOT bit store / order),
+    [reach r] = its reflexive-transitive closure,
+    [rec_reaches r rc sel k x] = "some entry [root] of [r] has a path whose key carries the
+    recursive registration [d] in [rc], [x] is in [sel d], and some entry reachable from
+    [root] has a path with key [k]". *)
+
+(** the edge relation is what the property says it is, arm by arm *)
+Theorem C08_edge_arms :
+  forall r a b,
+    edge r a b <->
+    exists t, resolve r a = Some t /\
+      ((exists p, In p (t_params t) /\ tp_ty p = Some b) \/
+       match t_def t with
+       | TDComposite fs => exists f, In f fs /\ f_ty f = b
+       | TDVariant vs => exists v f, In v vs /\ In f (v_fields v) /\ f_ty f = b
+       | TDSequence e => e = b
+       | TDArray _ e => e = b
+       | TDTuple es => In b es
+       | TDPrimitive _ => False
+       | TDCompact e => e = b
+       | TDBitSeq _ _ => False
+       end).
+Proof. exact edge_edge_spec. Qed.
+Print Assumptions C08_edge_arms.
+
+(** [collect_correct]: on a closed registry the traversal started at a valid id returns
+    (no fuel exhaustion, no panic) exactly the reachable ids, each once *)
+Theorem C08_collect_correct :
+  forall r id,
+    closed_reg r = true -> (id < N.of_nat (List.length r))%N ->
+    exists l, collect_type_ids r id = Ok l /\ NoDup l /\ forall x, In x l <-> reach r id x.
+Proof. exact collect_correct. Qed.
+Print Assumptions C08_collect_correct.
+
+(** ... and on ANY registry, whenever it returns at all it returns exactly that set *)
+Theorem C08_collect_exact :
+  forall r id l,
+    collect_type_ids r id = Ok l -> NoDup l /\ forall x, In x l <-> reach r id x.
+Proof. exact collect_type_ids_exact. Qed.
+Print Assumptions C08_collect_exact.
+
+(** [flatten_exact]: the flat registry maps the key [k] to (as sets, for derives and for
+    attributes) the registrations for [k] itself plus every recursive registration whose
+    root reaches an entry with key [k]; the defaults are untouched.
+    (ids = positions is what the sanity pass of [generate] checks first.) *)
+Theorem C08_flatten_exact :
+  forall dr r fl,
+    ids_consistent r = true -> flatten dr r = Ok fl ->
+    fl_default fl = dr_default dr /\
+    (forall k x,
+       In x (d_derives (smap_get_or_empty (fl_specific fl) k)) <->
+       In x (d_derives (kmap_or_empty (dr_specific dr) k)) \/
+       rec_reaches r (dr_recursive dr) d_derives k x) /\
+    (forall k x,
+       In x (d_attrs (smap_get_or_empty (fl_specific fl) k)) <->
+       In x (d_attrs (kmap_or_empty (dr_specific dr) k)) \/
+       rec_reaches r (dr_recursive dr) d_attrs k x).
+Proof.
+  exact (fun dr r fl Hi Hf =>
+           conj (proj1 (flatten_exact dr r fl Hi Hf))
+                (conj (proj2 (flatten_exact dr r fl Hi Hf) d_derives (or_introl eq_refl))
+                      (proj2 (flatten_exact dr r fl Hi Hf) d_attrs (or_intror eq_refl)))).
+Qed.
+Print Assumptions C08_flatten_exact.
+
+(** [exact]: the derive set and the attribute set of EVERY generated item (path [p]):
+    global, registered for [p], recursive registrations of the roots that reach [p],
+    CompactAs iff configured and the item is a struct passing the single-uint-field test;
+    nothing else *)
+Theorem C08_exact :
+  forall r s teq m p id ir,
+    generate r s teq = Ok m -> items_get m p = Some (id, ir) ->
+    (forall x, In x (d_derives (ti_derives ir)) <->
+       In x (d_derives (dr_default (s_dreg s))) \/
+       In x (d_derives (kmap_or_empty (dr_specific (s_dreg s)) (path_key p))) \/
+       rec_reaches r (dr_recursive (s_dreg s)) d_derives (path_key p) x \/
+       (s_compact_as s = Some x /\ item_compactable ir = true)) /\
+    (forall x, In x (d_attrs (ti_derives ir)) <->
+       In x (d_attrs (dr_default (s_dreg s))) \/
+       In x (d_attrs (kmap_or_empty (dr_specific (s_dreg s)) (path_key p))) \/
+       rec_reaches r (dr_recursive (s_dreg s)) d_attrs (path_key p) x).
+Proof. exact generate_derives_exact. Qed.
+Print Assumptions C08_exact.
+
+(** [no_excess]: a derive on an item that is neither global, nor registered for the item's
+    path, nor the CompactAs derive comes from a recursive registration on an entry from
+    which an entry with the item's path is reachable in the registry graph *)
+Theorem C08_no_excess :
+  forall r s teq m p id ir x,
+    generate r s teq = Ok m -> items_get m p = Some (id, ir) ->
+    In x (d_derives (ti_derives ir)) ->
+    ~ In x (d_derives (dr_default (s_dreg s))) ->
+    ~ In x (d_derives (kmap_or_empty (dr_specific (s_dreg s)) (path_key p))) ->
+    ~ (s_compact_as s = Some x /\ item_compactable ir = true) ->
+    exists root troot d i t,
+      resolve r root = Some troot /\ t_path troot <> [] /\
+      kmap_get (dr_recursive (s_dreg s)) (path_key (t_path troot)) = Some d /\ In x (d_derives d) /\
+      reach r root i /\
+      resolve r i = Some t /\ t_path t <> [] /\ path_key (t_path t) = path_key p.
+Proof. exact generate_no_excess. Qed.
+Print Assumptions C08_no_excess.
+
+Theorem C08_no_excess_attrs :
+  forall r s teq m p id ir x,
+    generate r s teq = Ok m -> items_get m p = Some (id, ir) ->
+    In x (d_attrs (ti_derives ir)) ->
+    ~ In x (d_attrs (dr_default (s_dreg s))) ->
+    ~ In x (d_attrs (kmap_or_empty (dr_specific (s_dreg s)) (path_key p))) ->
+    exists root troot d i t,
+      resolve r root = Some troot /\ t_path troot <> [] /\
+      kmap_get (dr_recursive (s_dreg s)) (path_key (t_path troot)) = Some d /\ In x (d_attrs d) /\
+      reach r root i /\
+      resolve r i = Some t /\ t_path t <> [] /\ path_key (t_path t) = path_key p.
+Proof. exact generate_no_excess_attrs. Qed.
+Print Assumptions C08_no_excess_attrs.
+
+(** [root_included]: the item at a path with a recursive registration carries all of it *)
+Theorem C08_root_included :
+  forall r s teq m p id ir d,
+    generate r s teq = Ok m -> items_get m p = Some (id, ir) ->
+    kmap_get (dr_recursive (s_dreg s)) (path_key p) = Some d ->
+    (forall x, In x (d_derives d) -> In x (d_derives (ti_derives ir))) /\
+    (forall x, In x (d_attrs d) -> In x (d_attrs (ti_derives ir))).
+Proof. exact generate_root_included. Qed.
+Print Assumptions C08_root_included.
+
+(** [closed]: if the recursive registration [d] of the entry [root] reaches an entry [X]
+    (so the item of [X]'s path carries it) and [X] reaches - through parameters, fields,
+    elements, at any depth - an entry [Y] whose path has an item, that item carries all of
+    [d] too.  (Stated on the registry graph; that "mentioned in the fields of the item"
+    implies "reachable from every entry with the item's path" is the skeleton-consistency
+    clause of DESIGN.md 3.3 and is not used here.) *)
+Theorem C08_closed :
+  forall r s teq m root troot d X Y tY idQ irQ,
+    generate r s teq = Ok m ->
+    resolve r root = Some troot -> t_path troot <> [] ->
+    kmap_get (dr_recursive (s_dreg s)) (path_key (t_path troot)) = Some d ->
+    reach r root X -> reach r X Y ->
+    resolve r Y = Some tY -> items_get m (t_path tY) = Some (idQ, irQ) ->
+    (forall x, In x (d_derives d) -> In x (d_derives (ti_derives irQ))) /\
+    (forall x, In x (d_attrs d) -> In x (d_attrs (ti_derives irQ))).
+Proof. exact generate_closed. Qed.
+Print Assumptions C08_closed.
+
+(** [compact_as_iff]: the eligibility test passes exactly for one field (named or not)
+    whose resolved type path is one of the primitives u8 / u16 / u32 / u64 / u128 *)
+Theorem C08_compact_as_iff :
+  forall k,
+    could_derive_as_compact k = true <->
+    exists f, (k = CUnnamed [f] \/ exists n, k = CNamed [(n, f)]) /\
+              exists p, fi_path f = TPrim p /\ In p [PU8; PU16; PU32; PU64; PU128].
+Proof. exact compact_as_iff. Qed.
+Print Assumptions C08_compact_as_iff.
+
+(** ... and on the generated item: the CompactAs clause of [C08_exact] holds exactly for a
+    struct item with one field of primitive type u8 / u16 / u32 / u64 / u128 *)
+Theorem C08_item_compact_as_iff :
+  forall ir,
+    item_compactable ir = true <->
+    exists c f, ti_kind ir = KStruct c /\
+                (ci_kind c = CUnnamed [f] \/ exists n, ci_kind c = CNamed [(n, f)]) /\
+                exists p, fi_path f = TPrim p /\ In p [PU8; PU16; PU32; PU64; PU128].
+Proof. exact item_compactable_iff. Qed.
+Print Assumptions C08_item_compact_as_iff.
+
+(** the negative cases: no field, two or more fields, a field that is not a primitive
+    (compact, parameter, path, sequence, array, tuple, bit sequence), bool / char / str /
+    signed / 256-bit primitives, enums *)
+Theorem C08_compact_as_negative :
+  could_derive_as_compact CNoFields = false /\
+  could_derive_as_compact (CNamed []) = false /\
+  could_derive_as_compact (CUnnamed []) = false /\
+  (forall a b l, could_derive_as_compact (CNamed (a :: b :: l)) = false) /\
+  (forall a b l, could_derive_as_compact (CUnnamed (a :: b :: l)) = false) /\
+  (forall f, (forall p, fi_path f <> TPrim p) ->
+             could_derive_as_compact (CUnnamed [f]) = false /\
+             forall n, could_derive_as_compact (CNamed [(n, f)]) = false) /\
+  (forall f p, fi_path f = TPrim p ->
+               In p [PBool; PChar; PStr; PU256; PI8; PI16; PI32; PI64; PI128; PI256] ->
+               could_derive_as_compact (CUnnamed [f]) = false /\
+               forall n, could_derive_as_compact (CNamed [(n, f)]) = false) /\
+  (forall ir name docs vs, ti_kind ir = KEnum name docs vs -> item_compactable ir = false).
+Proof. exact compact_as_negative. Qed.
+Print Assumptions C08_compact_as_negative.
+
+(** the hypotheses are satisfiable on a non-trivial registry (Proofs/DerivesExamples.v:
+    cycle A -> Vec<B> -> B -> Option<A> -> A, generic root G with instantiations G<u8> and
+    G<A>, single-u32 wrapper W): closed, ids = positions, generation succeeds, and the
+    items carry what the theorems say *)
+Example C08_witness :
+  closed_reg ex_reg = true /\ ids_consistent ex_reg = true /\
+  map (collect_type_ids ex_reg) [0; 4; 5; 8]%N =
+  [Ok [3; 2; 1; 0]; Ok [6; 4]; Ok [3; 2; 1; 0; 5]; Ok [7; 8]]%N /\
+  rmap item_derive_keys (generate ex_reg ex_settings (types_equal ex_reg)) =
+  Ok [ (["m"; "A"], (["Clone"; "Debug"; "Eq"; "Hash"], ["#[a]"; "#[b]"]));
+       (["m"; "B"], (["Clone"; "Debug"; "Eq"], ["#[b]"]));
+       (["m"; "G"], (["Clone"; "Eq"], []));
+       (["m"; "H"], (["Eq"], []));
+       (["m"; "W"], (["CompactAs"; "Eq"], [])) ]%string.
+Proof.
+  exact (conj (proj1 ex_collect) (conj (proj1 (proj2 ex_collect))
+          (conj (proj2 (proj2 ex_collect)) ex_generate))).
+Qed.
